@@ -8,7 +8,7 @@ if VERIF not in sys.path:
     sys.path.insert(0, VERIF)
 
 # work units per tier: (witnessed fault batches, solo fault batches, token schedules, fault-generator sub-seeds)
-PLAN = {"quick": (32, 8, 40, 1), "thorough": (160, 24, 600, 3)}
+PLAN = {"quick": (32, 8, 96, 1), "thorough": (576, 96, 3000, 12)}
 
 
 def _one(args):
